@@ -181,8 +181,30 @@ pub async fn reflink_async(cache: &Path, sri: &Integrity, to: &Path) -> Result<(
     reflink_unchecked(cache, sri, to)
 }
 
+// Whether two files are one and the same: the destination of a copy may
+// already be a hard link to the content file (or, with `link_to`, be the very
+// file the content links to). Copying a file onto itself truncates it.
+fn is_same_file(a: &std::fs::Metadata, b: &std::fs::Metadata) -> bool {
+    #[cfg(unix)]
+    {
+        use std::os::unix::fs::MetadataExt;
+        a.dev() == b.dev() && a.ino() == b.ino()
+    }
+    #[cfg(not(unix))]
+    {
+        let _ = (a, b);
+        false
+    }
+}
+
 pub fn copy_unchecked(cache: &Path, sri: &Integrity, to: &Path) -> Result<u64> {
     let cpath = path::content_path(cache, sri);
+    if let (Ok(src), Ok(dest)) = (std::fs::metadata(&cpath), std::fs::metadata(to)) {
+        if is_same_file(&src, &dest) {
+            // The destination already holds the data: it is this very file.
+            return Ok(src.len());
+        }
+    }
     std::fs::copy(cpath, to).with_context(|| {
         format!(
             "Failed to copy cache contents from {} to {}",
@@ -221,6 +243,15 @@ pub async fn copy_unchecked_async<'a>(
     to: &'a Path,
 ) -> Result<u64> {
     let cpath = path::content_path(cache, sri);
+    if let (Ok(src), Ok(dest)) = (
+        crate::async_lib::metadata(&cpath).await,
+        crate::async_lib::metadata(to).await,
+    ) {
+        if is_same_file(&src, &dest) {
+            // The destination already holds the data: it is this very file.
+            return Ok(src.len());
+        }
+    }
     crate::async_lib::copy(&cpath, to).await.with_context(|| {
         format!(
             "Failed to copy cache contents from {} to {}",
